@@ -27,6 +27,7 @@ type ReplayCase struct {
 	Choices  []int    `json:"choices"`
 	Rules    []string `json:"rules"`
 	Devs     []string `json:"deviations"`
+	Bound    *int     `json:"bound,omitempty"` // the deviation bound the execution was found under (the menu offered at a choice point depends on the remaining budget)
 	Trace    []string `json:"trace,omitempty"`
 }
 
@@ -132,7 +133,11 @@ func RunScenarios(r *report.Run, scen []Scenario, opt Options) {
 						os.Exit(1)
 					}
 				}()
-				return runOnce(sc.Cfg, rc.Choices, sc.Bound, true, opt.Monitors)
+				bound := sc.Bound
+				if rc.Bound != nil {
+					bound = *rc.Bound
+				}
+				return runOnce(sc.Cfg, rc.Choices, bound, true, opt.Monitors)
 			}()
 			if opt.ExtraEnd != nil {
 				opt.ExtraEnd(w)
@@ -237,7 +242,8 @@ func RunScenarios(r *report.Run, scen []Scenario, opt Options) {
 								break
 							}
 						}
-						rc := ReplayCase{Scenario: sc.Cfg.Name, Choices: choices, Rules: rules, Devs: w.Deviations}
+						bnd := bound
+						rc := ReplayCase{Scenario: sc.Cfg.Name, Choices: choices, Rules: rules, Devs: w.Deviations, Bound: &bnd}
 						r.ViolationConfirmed(sig, what, rc, func() string {
 							w2, _ := runOnce(sc.Cfg, choices, bound, false, opt.Monitors)
 							if opt.ExtraEnd != nil {
